@@ -24,7 +24,9 @@ RULE = ("cases = (decimal places 5..9, extrusion geometry (layer, nozzle, "
         "set_distance_mode, set_extrusion_mode, set_axis(E=v), add_hook/"
         "remove_hook of probe hooks, a rewriting hook, a hook that returns a new "
         "dict with a word left out, and the extrusion hook, move_hook() contexts "
-        "with hooks added/removed inside the block); non-trivial = >=3 G1 segments with the "
+        "with hooks added/removed inside the block; hooks registered as plain "
+        "functions, bound methods (a fresh method object per add/remove), "
+        "callable objects or functools.partial); non-trivial = >=3 G1 segments with the "
         "extrusion hook active, in relative distance mode or spanning an E "
         "reset or an extrusion-mode switch; distinct by SHA-1")
 ASSUMPTIONS = [
@@ -121,8 +123,52 @@ class Runner:
             self.calls.append(("extrude", tuple(origin), tuple(target), dict(params)))
             return ext(origin, target, params, state)
 
-        self.hooks = {"probe1": mk_probe("probe1"), "probe2": mk_probe("probe2"),
-                      "rewrite": rewrite, "extrude": extrude, "drop": drop}
+        funcs = {"probe1": mk_probe("probe1"), "probe2": mk_probe("probe2"),
+                 "rewrite": rewrite, "extrude": extrude, "drop": drop}
+        # the same logical hooks in the forms a caller may register them in:
+        # plain functions, bound methods (every attribute access makes a new,
+        # equal method object), callable objects, functools.partial objects
+        form = case.get("hook_form", "function")
+
+        class Holder:
+            def probe1(self, o, t, p, st):
+                return funcs["probe1"](o, t, p, st)
+
+            def probe2(self, o, t, p, st):
+                return funcs["probe2"](o, t, p, st)
+
+            def rewrite(self, o, t, p, st):
+                return funcs["rewrite"](o, t, p, st)
+
+            def extrude(self, o, t, p, st):
+                return funcs["extrude"](o, t, p, st)
+
+            def drop(self, o, t, p, st):
+                return funcs["drop"](o, t, p, st)
+
+        class Obj:
+            def __init__(self, f):
+                self.f = f
+
+            def __call__(self, o, t, p, st):
+                return self.f(o, t, p, st)
+
+        holder = Holder()
+        objs = {k: Obj(f) for k, f in funcs.items()}
+        import functools
+        parts = {k: functools.partial(f) for k, f in funcs.items()}
+
+        def getter(name):
+            if form == "method":
+                return getattr(holder, name)      # a fresh bound method each time
+            if form == "callable":
+                return objs[name]
+            if form == "partial":
+                return parts[name]
+            return funcs[name]
+        self.hook = getter
+        if form != "function":
+            cl.add("hook_form:" + form)
         self.ext_segments = 0
         self.ext_flags = set()
 
@@ -141,19 +187,19 @@ class Runner:
             self.cl.add("other_builder_active")
             return
         if name == "add_hook":
-            g.add_hook(self.hooks[op["hook"]])
+            g.add_hook(self.hook(op["hook"]))
             if op["hook"] not in self.installed:
                 self.installed.append(op["hook"])
             return
         if name == "remove_hook":
-            g.remove_hook(self.hooks[op["hook"]])
+            g.remove_hook(self.hook(op["hook"]))
             if op["hook"] in self.installed:
                 self.installed.remove(op["hook"])
             return
         if name == "hookctx":
             # with g.move_hook(h): registers h for the block and removes it after
             h = op["hook"]
-            with g.move_hook(self.hooks[h]):
+            with g.move_hook(self.hook(h)):
                 if h not in self.installed:
                     self.installed.append(h)
                 for sub in op["body"]:
@@ -264,6 +310,12 @@ class Runner:
                         if rem is None or abs(float(rem) - float(v)) > 1e-12 * (1 + abs(v)):
                             raise Violation(f"{op!r}: get_parameter({L!r}) = {rem!r} after the "
                                             f"move, last hook returned {v!r}")
+                if i == len(g1) - 1 and exp_letters.get("F") is not None:
+                    # remembered by the state object as well
+                    sf = g.state.feed_rate
+                    if sf is None or abs(float(sf) - float(exp_letters["F"])) > 1e-12 * (1 + abs(exp_letters["F"])):
+                        raise Violation(f"{op!r}: state.feed_rate = {sf!r} after the move, the "
+                                        f"last hook returned F={exp_letters['F']!r} ({raw!r})")
                 extra = set(got) - set(exp_letters) - ({"E"} if "extrude" in self.installed else set())
                 if extra:
                     raise Violation(f"{op!r} segment #{i}: emitted {raw!r} has words "
@@ -321,6 +373,7 @@ def strategy(n):
                            [{"op": "add_hook", "hook": "extrude"}, {"op": "set_distance_mode", "mode": "relative"}]])
     return st.fixed_dictionaries({
         "dp": st.integers(5, 9), "geo": geo,
+        "hook_form": st.sampled_from(["function", "function", "method", "callable", "partial"]),
         "ops": st.tuples(pre, st.lists(op_strategy(), min_size=1, max_size=n)).map(
             lambda t: t[0] + t[1])})
 
